@@ -279,6 +279,7 @@ class Builder:
             self.fill_inheritance(ns)
         for ns in self.api['namespaces']:
             self.fill_members(ns)
+        self.shape_permission_family()
         self.repair_inhabited()
         if cfg.routes:
             if cfg.schema:
@@ -617,6 +618,42 @@ class Builder:
             if a.get('subtypes'):
                 taken |= {t for t, _ in a['subtypes']['items']}
         return taken
+
+    def shape_permission_family(self):
+        """Under annot_bias: give one struct that has descendants two or more fields with *different*
+        Omitted callers, so that permission maps are inherited (LR "Omitted"; the python backend emits
+        one field-name map per caller of the whole ancestor chain)."""
+        g, cfg = self.g, self.cfg
+        if not (cfg.annotations and cfg.annot_bias and cfg.omitted) or not g.p(45):
+            return
+        parents = [(n, d) for n, d in self.idx.types(('struct',)) if self.idx.children(n, d['name'])]
+        if not parents:
+            return
+        n, d = g.choice(parents)
+        ns = self.idx.ns[n]
+        by_caller = {}
+        for a in self.visible_annotations(ns):
+            if a[2] == 'Omitted':
+                by_caller.setdefault(self.idx.get(a[0], a[1])['args'][0], a)
+        if len(by_caller) < 2:
+            return
+        taken = set()
+        stack = [(n, d)]
+        while stack:
+            nn, dd = stack.pop()
+            taken |= self.names_in_family(nn, dd)
+            stack += self.idx.children(nn, dd['name'])
+        callers = sorted(by_caller)
+        keep = g.subset(callers, 70)
+        if len(keep) < 2:
+            keep = callers[:2]
+        for c in keep:
+            a = by_caller[c]
+            name = self.namer.fresh(SNAKE, taken, extra_ok=lambda s: s not in RESERVED_SNAKE)
+            t = g.choice([('nullable', prim('String')), ('nullable', prim('Int64')), prim('String'),
+                          ('list', prim('String'), None, None)])
+            d['fields'].append({'name': name, 'type': t, 'doc': None, 'default': None,
+                                'annots': [(a[0], a[1])]})
 
     def fill_members(self, ns):
         g, cfg = self.g, self.cfg
@@ -1046,6 +1083,13 @@ def features(api):
                     fs.add('inheritance')
                     if d['parent'][0] != n['name']:
                         fs.add('xns_parent')
+                    own = {idx.get(*a)['args'][0] for f in d['fields'] for a in f['annots']
+                           if idx.get(*a)['atype'][1] == 'Omitted'}
+                    inh = {idx.get(*a)['args'][0] for an, ad in idx.ancestors(n['name'], d)
+                           for f in ad['fields'] for a in f['annots']
+                           if idx.get(*a)['atype'][1] == 'Omitted'}
+                    if len(inh - own) >= 2:
+                        fs.add('inherits>=2_omitted_callers')
                 if d['subtypes']:
                     fs.add('enumerated_subtypes')
                 if d['patch']:
